@@ -11,6 +11,7 @@ import (
 	"go/constant"
 	"go/token"
 	"go/types"
+	"math/big"
 
 	"golang.org/x/tools/go/ssa"
 
@@ -247,6 +248,78 @@ func init() {
 						pos := c.P.Pos(updates[0].Pos())
 						if l.ConstBounded {
 							s.OK(key, pos, "constant trip count ("+l.BoundFacts+")")
+							// what the accumulator can reach in that many rounds must fit wherever it is narrowed to
+							if t, ok := tripCount(l); ok {
+								K, uniform := int64(0), true
+								for _, u := range updates {
+									bo := u.(*ssa.BinOp)
+									for _, side := range []ssa.Value{bo.X, bo.Y} {
+										if m, ok := side.(*ssa.BinOp); ok && (m.Op == token.MUL || m.Op == token.SHL) {
+											kv, isK := constInt(m.Y)
+											if !isK {
+												kv, isK = constInt(m.X)
+											}
+											if !isK {
+												continue
+											}
+											if m.Op == token.SHL {
+												kv = 1 << uint(kv)
+											}
+											if K != 0 && K != kv {
+												uniform = false
+											}
+											K = kv
+										}
+									}
+								}
+								init := int64(-1)
+								for i, e := range phi.Edges {
+									if !l.Blocks[l.Header.Preds[i]] {
+										if v, ok := constInt(e); ok && (init < 0 || init == v) {
+											init = v
+										} else {
+											init = -2
+										}
+									}
+								}
+								if uniform && K >= 2 && init >= 0 && init < K && t >= 0 && t <= 64 {
+									max := new(big.Int).Exp(big.NewInt(K), big.NewInt(t), nil)
+									max.Sub(max, big.NewInt(1))
+									for _, b := range f.Blocks {
+										for _, in2 := range b.Instrs {
+											cv, ok := in2.(*ssa.Convert)
+											if !ok {
+												continue
+											}
+											bits, uns, isInt := intTypeInfo(cv.Type())
+											if !isInt {
+												continue
+											}
+											src := stripConv(cv.X)
+											from := src == ssa.Value(phi)
+											for _, u := range updates {
+												if src == u {
+													from = true
+												}
+											}
+											if !from {
+												continue
+											}
+											lim := new(big.Int).Lsh(big.NewInt(1), uint(bits))
+											if !uns {
+												lim.Rsh(lim, 1)
+											}
+											lim.Sub(lim, big.NewInt(1))
+											nk := fmt.Sprintf("%s/narrow:%s", key, cv.Type().String())
+											if max.Cmp(lim) <= 0 {
+												s.OK(nk, c.P.Pos(cv.Pos()), fmt.Sprintf("at most %d rounds of ×%d: the value stays ≤ %s, which %s holds", t, K, max.String(), cv.Type().String()))
+											} else {
+												s.Bad(nk, c.P.Pos(cv.Pos()), fmt.Sprintf("the loop runs up to %d rounds of ×%d, so the value can reach %s, but it is converted to %s (max %s): digits are silently lost", t, K, max.String(), cv.Type().String(), lim.String()))
+											}
+										}
+									}
+								}
+							}
 							continue
 						}
 						// every back edge is dominated by an upper-bound fact on the updated value
@@ -390,6 +463,105 @@ func derivesFromPhi(v ssa.Value, phi *ssa.Phi, l *ssaLoop, depth int) bool {
 		}
 	}
 	return false
+}
+
+// tripCount: the largest number of rounds of a counted loop (constant start, step and bound).
+func tripCount(l *ssaLoop) (int64, bool) {
+	for b := range l.Blocks {
+		iff, ok := b.Instrs[len(b.Instrs)-1].(*ssa.If)
+		if !ok {
+			continue
+		}
+		stayTrue, stayFalse := l.Blocks[b.Succs[0]], l.Blocks[b.Succs[1]]
+		if stayTrue == stayFalse {
+			continue
+		}
+		bo, ok := iff.Cond.(*ssa.BinOp)
+		if !ok {
+			continue
+		}
+		op := bo.Op
+		x, y := bo.X, bo.Y
+		if _, isK := x.(*ssa.Const); isK {
+			x, y = y, x
+			op = mirror(op)
+		}
+		phi, isPhi := stripConv(x).(*ssa.Phi)
+		bound, isK := constInt(y)
+		if !isPhi || !isK || phi.Block() != l.Header {
+			continue
+		}
+		if !stayTrue {
+			// the loop continues on the false edge: negate
+			switch op {
+			case token.LSS:
+				op = token.GEQ
+			case token.LEQ:
+				op = token.GTR
+			case token.GTR:
+				op = token.LEQ
+			case token.GEQ:
+				op = token.LSS
+			case token.NEQ:
+				op = token.EQL
+			case token.EQL:
+				op = token.NEQ
+			}
+		}
+		start, step, ok2 := int64(0), int64(0), true
+		haveStart := false
+		for i, e := range phi.Edges {
+			if !l.Blocks[l.Header.Preds[i]] {
+				v, isC := constInt(e)
+				if !isC || (haveStart && v != start) {
+					ok2 = false
+				}
+				start, haveStart = v, true
+				continue
+			}
+			st, isBin := e.(*ssa.BinOp)
+			if !isBin || (st.Op != token.ADD && st.Op != token.SUB) || stripConv(st.X) != ssa.Value(phi) {
+				ok2 = false
+				continue
+			}
+			d, isC := constInt(st.Y)
+			if !isC {
+				ok2 = false
+				continue
+			}
+			if st.Op == token.SUB {
+				d = -d
+			}
+			if step != 0 && step != d {
+				ok2 = false
+			}
+			step = d
+		}
+		if !ok2 || !haveStart || step == 0 {
+			continue
+		}
+		var span int64
+		switch {
+		case step > 0 && op == token.LSS:
+			span = bound - start
+		case step > 0 && op == token.LEQ:
+			span = bound - start + 1
+		case step < 0 && op == token.GTR:
+			span = start - bound
+		case step < 0 && op == token.GEQ:
+			span = start - bound + 1
+		default:
+			continue
+		}
+		if span < 0 {
+			span = 0
+		}
+		if step < 0 {
+			step = -step
+		}
+		return (span + step - 1) / step, true
+	}
+	return 0, false
 }
 
 var _ = constant.MakeInt64
